@@ -1,4 +1,5 @@
 import Hms.Core.Value
+import Hms.Core.Lib
 /-!
 # Source-level specification semantics (`specRun`)
 
@@ -270,6 +271,11 @@ def floatOp (op : InfixOp) (a b : Float) (sp : Span) : M Val :=
   | .le => pure (.bool (a ≤ b))
   | .gt => pure (.bool (a > b))
   | .ge => pure (.bool (a ≥ b))
+  | .pow =>
+    -- both backends: math.Pow
+    match goPow a b with
+    | some r => pure (.float r)
+    | none => throwCtl (.unsupported "float ** with a fractional exponent (math.Exp/math.Log)")
   | _ => throwCtl (.unsupported "float operator")
 
 def boolOp (op : InfixOp) (a b : Bool) : M Val :=
@@ -357,6 +363,217 @@ def rangeElems (a b : I64) (incl : Bool) : List I64 :=
     let lo := if incl then y - 1 else y
     (List.range (x - lo).toNat).map fun (k : Nat) => I64.ofInt (x - (k : Int))
 
+/-- `int64(f)` where it is defined. -/
+def floatToIntM (f : Float) : M Val :=
+  match floatToI64? f with
+  | some i => pure (.int i)
+  | none => throwCtl (.unsupported "int64(f) outside the int64 range (implementation-defined)")
+
+def floatIsIntM (f : Float) : M Val :=
+  match floatIsInt? f with
+  | some b => pure (.bool b)
+  | none => throwCtl (.unsupported "int64(f) outside the int64 range (implementation-defined)")
+
+/-! ## Casts (`value.DeepCast`, `runtime/value/cast.go` = `interpreter/value/cast.go`) -/
+
+/-- `Value.Kind().String()` as the cast error messages print it. -/
+def kindNameM (v : Val) : M String := do
+  match v with
+  | .null => pure "null"
+  | .int _ => pure "int"
+  | .float _ => pure "float"
+  | .bool _ => pure "bool"
+  | .str _ => pure "string"
+  | .opt _ => pure "option"
+  | .range .. => pure "range"
+  | .ref a => do
+    match ← readCell a with
+    | .list _ => pure "list"
+    | .obj _ => pure "object"
+    | .anyobj _ => pure "any-object"
+  -- the two backends name function values differently ("closure" / "function")
+  | _ => throwCtl (.unsupported "kind name of a function value")
+
+/-- `Value.Kind().TypeKind().String()` (`get_type`). -/
+def typeKindNameM (v : Val) : M String := do
+  match v with
+  | .null => pure "null"
+  | .int _ => pure "int"
+  | .float _ => pure "float"
+  | .bool _ => pure "bool"
+  | .str _ => pure "str"
+  | .opt _ => pure "Option"
+  | .range .. => pure "range"
+  | .ref a => do
+    match ← readCell a with
+    | .list _ => pure "list"
+    | .obj _ => pure "object"
+    | .anyobj _ => pure "any-object"
+  | .fn .. | .closure _ | .builtin _ => pure "function"
+  | .bound .. => throwCtl (.unsupported "type name of a bound member")
+
+mutual
+/-- `Value.Clone()`: a deep copy of lists, objects, any-objects (through options). -/
+def deepClone : Nat → Val → M Val
+  | 0, _ => throwCtl (.unsupported "clone depth")
+  | fuel + 1, v =>
+    match v with
+    | .ref a => do
+      match ← readCell a with
+      | .list xs => do alloc (.list (← deepCloneList fuel xs))
+      | .obj fs => do alloc (.obj (← deepCloneFields fuel fs))
+      | .anyobj fs => do alloc (.anyobj (← deepCloneFields fuel fs))
+    | .opt (some x) => do pure (.opt (some (← deepClone fuel x)))
+    | v => pure v
+def deepCloneList : Nat → List Val → M (List Val)
+  | 0, _ => throwCtl (.unsupported "clone depth")
+  | _ + 1, [] => pure []
+  | fuel + 1, x :: xs => do
+    let y ← deepClone fuel x
+    let ys ← deepCloneList fuel xs
+    pure (y :: ys)
+def deepCloneFields : Nat → List (String × Val) → M (List (String × Val))
+  | 0, _ => throwCtl (.unsupported "clone depth")
+  | _ + 1, [] => pure []
+  | fuel + 1, (k, x) :: xs => do
+    let y ← deepClone fuel x
+    let ys ← deepCloneFields fuel xs
+    pure ((k, y) :: ys)
+end
+
+/-- `CastError.Message()` / `newCastErr`: the text of the catchable exception. -/
+def castErrMsg (path what : String) : String :=
+  "Cast error" ++ (if path.isEmpty then "" else " at `" ++ path ++ "`") ++ ": " ++ what
+
+def castIncompat {α} (v : Val) (t : Ty) (path : String) (sp : Span) : M α := do
+  let k ← kindNameM v
+  match tyText t with
+  | some ts =>
+    throwCtl (.throw (castErrMsg path
+      s!"Incompatible values: a value of type '{k}' is not compatible with a value of type '{ts}'") sp)
+  | none => throwCtl (.unsupported "cast error naming an object / function type")
+
+mutual
+/-- `deepCastRecursive(val, typ, span, allowCasts, path)`. A cast list / object is a new
+container (elements converted one by one); an any-object is returned as it is; an object cast to
+`{ ? }` is a deep copy. -/
+def castVal : Nat → Val → Ty → Bool → String → Span → M Val
+  | 0, _, _, _, _, _ => throwCtl (.unsupported "cast depth")
+  | fuel + 1, v, t, allow, path, sp =>
+    match t with
+    | .any => pure v
+    | .opt inner =>
+      match v with
+      | .opt none => pure (.opt none)
+      | .opt (some x) => do
+        pure (.opt (some (← castVal fuel x inner allow (path ++ "<option-inner>") sp)))
+      | .null => pure (.opt none)
+      | _ => do pure (.opt (some (← castVal fuel v inner allow path sp)))
+    | _ =>
+      match v with
+      | .bool b =>
+        match t with
+        | .bool => pure v
+        | .int => if allow then pure (.int (if b then 1 else 0)) else castIncompat v t path sp
+        | .float => if allow then pure (.float (if b then 1.0 else 0.0)) else castIncompat v t path sp
+        | _ => castIncompat v t path sp
+      | .int i =>
+        match t with
+        | .int => pure v
+        | .bool => if allow then pure (.bool (i != 0)) else castIncompat v t path sp
+        | .float => if allow then pure (.float (i64ToFloat i)) else castIncompat v t path sp
+        | _ => castIncompat v t path sp
+      | .float f =>
+        match t with
+        | .float => pure v
+        | .bool => if allow then pure (.bool (!(f == 0))) else castIncompat v t path sp
+        | .int =>
+          if allow then floatToIntM f else castIncompat v t path sp
+        | _ => castIncompat v t path sp
+      | .str _ =>
+        match t with
+        | .str => pure v
+        | _ => castIncompat v t path sp
+      | .null =>
+        match t with
+        | .null => pure v
+        | _ => castIncompat v t path sp
+      | .range .. =>
+        match t with
+        | .range => pure v
+        | _ => castIncompat v t path sp
+      | .opt _ => castIncompat v t path sp
+      | .ref a => do
+        match ← readCell a with
+        | .list xs =>
+          match t with
+          | .list inner => do alloc (.list (← castList fuel xs inner allow path 0 sp))
+          | _ => castIncompat v t path sp
+        | .anyobj _ =>
+          match t with
+          | .anyobj => pure v
+          | _ => castIncompat v t path sp
+        | .obj fs =>
+          match t with
+          | .anyobj => do alloc (.anyobj (← deepCloneFields 1000000 fs))
+          | .obj tfs => do
+            -- the fields of the value in key order; the first error found is the one reported
+            let out ← castFields fuel (sortFields fs) tfs allow path sp
+            match tfs.find? fun kt => (fs.lookup kt.1).isNone with
+            | some (k, _) =>
+              throwCtl (.throw (castErrMsg path s!"Incompatible values: field '{k}' was expected but not found") sp)
+            | none => alloc (.obj out)
+          | _ => castIncompat v t path sp
+      | _ => throwCtl (.unsupported "cast of a function value")
+def castList : Nat → List Val → Ty → Bool → String → Nat → Span → M (List Val)
+  | 0, _, _, _, _, _, _ => throwCtl (.unsupported "cast depth")
+  | _ + 1, [], _, _, _, _, _ => pure []
+  | fuel + 1, x :: xs, inner, allow, path, idx, sp => do
+    let y ← castVal fuel x inner allow (path ++ s!"[{idx}]") sp
+    let ys ← castList fuel xs inner allow path (idx + 1) sp
+    pure (y :: ys)
+def castFields : Nat → List (String × Val) → List (String × Ty) → Bool → String → Span → M (List (String × Val))
+  | 0, _, _, _, _, _ => throwCtl (.unsupported "cast depth")
+  | _ + 1, [], _, _, _, _ => pure []
+  | fuel + 1, (k, x) :: xs, tfs, allow, path, sp => do
+    match tfs.lookup k with
+    | none => throwCtl (.throw (castErrMsg path s!"Incompatible values: found unexpected field '{k}'") sp)
+    | some ft =>
+      let y ← castVal fuel x ft allow (path ++ "." ++ k) sp
+      let ys ← castFields fuel xs tfs allow path sp
+      pure ((k, y) :: ys)
+end
+
+/-- The fuel of a cast: bounds elements + nesting of the value (a model limit). -/
+def castFuel : Nat := 1000000
+
+mutual
+/-- `containsAnyObject(val, target)` of `valueAnyObject.go`: does `v` hold, at any depth, the
+any-object at heap address `target`? `none`: not decided within the fuel. -/
+def reachesVal (heap : Array Cell) (target : Nat) : Nat → Val → Option Bool
+  | 0, _ => none
+  | fuel + 1, v =>
+    match v with
+    | .ref b =>
+      if b == target then some true
+      else
+        match heap[b]? with
+        | some (.list xs) => reachesList heap target fuel xs
+        | some (.obj fs) => reachesList heap target fuel (fs.map (·.2))
+        | some (.anyobj fs) => reachesList heap target fuel (fs.map (·.2))
+        | none => none
+    | .opt (some x) => reachesVal heap target fuel x
+    | _ => some false
+def reachesList (heap : Array Cell) (target : Nat) : Nat → List Val → Option Bool
+  | 0, _ => none
+  | _ + 1, [] => some false
+  | fuel + 1, x :: xs =>
+    match reachesVal heap target fuel x with
+    | some true => some true
+    | some false => reachesList heap target fuel xs
+    | none => none
+end
+
 /-! ## The evaluator -/
 
 structure Place where
@@ -417,10 +634,14 @@ def indexVal (b i : Val) (sp : Span) : M Val := do
     | _ => throwCtl (.unsupported "index base")
   | .ref a, .str k => do
     match ← readCell a with
-    | .obj fs | .anyobj fs =>
+    | .obj fs =>
       match fs.lookup k with
       | some v => pure v
-      | none => throwCtl (.unsupported "index with a missing key")
+      | none => throwCtl (.fatal "IndexOutOfBounds" s!"Value of type 'object' has no field named '{k}'" sp)
+    | .anyobj fs =>
+      match fs.lookup k with
+      | some v => pure v
+      | none => throwCtl (.fatal "IndexOutOfBounds" s!"Value of type 'any-object' has no field named '{k}'" sp)
     | _ => throwCtl (.unsupported "index base")
   | .str s, .int k =>
     -- strings are indexed by character, as `len` and iteration count them
@@ -443,7 +664,26 @@ def memberVal (b : Val) (name : String) (op : MemberOp) (_sp : Span) : M Val := 
     | .range x y _ =>
       if name == "start" then pure (.int x) else if name == "end" then pure (.int y) else pure (.bound b name)
     | _ => pure (.bound b name)
-  | _ => throwCtl (.unsupported "-> / ~> member access")
+  -- `o->k`: the data field `k` of an any-object as an option (Member_Anyobj); `o~>k`: that option
+  -- unwrapped (Member_Anyobj; Member_Unwrap). The VM is the reference here: the interpreter ignores the
+  -- operator (finding M3), so programs using them are not generated.
+  | .arrow =>
+    match b with
+    | .ref a => do
+      match ← readCell a with
+      | .anyobj fs => pure (.opt (fs.lookup name))
+      | _ => throwCtl (.unsupported "-> on a value that is not an any-object")
+    | _ => throwCtl (.unsupported "-> on a value that is not an any-object")
+  | .tildeArrow =>
+    match b with
+    | .ref a => do
+      match ← readCell a with
+      | .anyobj fs =>
+        match fs.lookup name with
+        | some v => pure v
+        | none => throwCtl (.throw "Called 'unwrap' on a 'null' option value" _sp)
+      | _ => throwCtl (.unsupported "~> on a value that is not an any-object")
+    | _ => throwCtl (.unsupported "~> on a value that is not an any-object")
 def iterElems (v : Val) : M (List Val) := do
   match v with
   | .range a b incl =>
@@ -479,21 +719,120 @@ def callBuiltin (name : String) (vals : List Val) (sp : Span) : M Val := do
     | [.bool false] => throwCtl (.fatal "HostError" "Assert failed" sp)
     | _ => throwCtl (.unsupported "assert argument")
   | _ => throwCtl (.unsupported s!"builtin {name}")
+/-- Members of a float (`valueFloat.go`) beyond `to_string`: `is_int`, `trunc`, `round`. -/
+def floatMember (f : Float) (name : String) (vals : List Val) : M Val :=
+  if name == "is_int" && vals.isEmpty then floatIsIntM f
+  else if name == "trunc" && vals.isEmpty then floatToIntM (floatTrunc f)
+  else if name == "round" && vals.isEmpty then floatToIntM f.round
+  else throwCtl (.unsupported ("member " ++ name))
+
+/-! Members of a string (`valueString.go`) beyond those listed in `callMember`; one function per
+member, `strMember` dispatches on the name. -/
+
+def strSubstring (s : String) (vals : List Val) (sp : Span) : M Val :=
+  match vals with
+  | [.int u] =>
+    -- runes[0:upper]; `upper == len` is refused too
+    if u.toInt < 0 || u.toInt ≥ (s.length : Int) then throwCtl (.throw "index out of range" sp)
+    else pure (.str (String.ofList (s.toList.take u.toNat)))
+  | _ => throwCtl (.unsupported "member substring")
+
+def strReplace (s : String) (vals : List Val) : M Val :=
+  match vals with
+  | [.str old, .str new] => pure (.str (String.ofList (goReplaceAll s.toList old.toList new.toList)))
+  | _ => throwCtl (.unsupported "member replace")
+
+def strSplit (s : String) (vals : List Val) : M Val :=
+  match vals with
+  | [.str sep] => alloc (.list ((goSplit s.toList sep.toList).map fun piece => Val.str (String.ofList piece)))
+  | _ => throwCtl (.unsupported "member split")
+
+def strToUpper (s : String) : M Val :=
+  match goToUpper? s.toList with
+  | some r => pure (.str (String.ofList r))
+  | none => throwCtl (.unsupported "to_upper of a non-ASCII string")
+
+def strToLower (s : String) : M Val :=
+  match goToLower? s.toList with
+  | some r => pure (.str (String.ofList r))
+  | none => throwCtl (.unsupported "to_lower of a non-ASCII string")
+
+/-- The exception of a failed `strconv` parse: `NumError.Error()`. -/
+def strconvErr {α} (fn : String) (s : String) (why : String) (sp : Span) : M α :=
+  match goQuote? s.toList with
+  | some q => throwCtl (.throw ("strconv." ++ fn ++ ": parsing " ++ q ++ ": " ++ why) sp)
+  | none => throwCtl (.unsupported "strconv.Quote of a non-ASCII / unprintable string")
+
+def strParseInt (s : String) (sp : Span) : M Val :=
+  match goParseInt s.toList with
+  | .ok i => pure (.int i)
+  | .error e => strconvErr "ParseInt" s e.text sp
+
+def strParseBool (s : String) (sp : Span) : M Val :=
+  match goParseBool s with
+  | some b => pure (.bool b)
+  | none => strconvErr "ParseBool" s "invalid syntax" sp
+
+def strParseFloat (s : String) (sp : Span) : M Val :=
+  match goParseFloat s.toList with
+  | .ok f => pure (.float f)
+  | .syntaxErr => strconvErr "ParseFloat" s "invalid syntax" sp
+  | .unmodelled => throwCtl (.unsupported "parse_float outside the decided class")
+
+def strMember (s : String) (name : String) (vals : List Val) (sp : Span) : M Val :=
+  if name == "substring" then strSubstring s vals sp
+  else if name == "replace" then strReplace s vals
+  else if name == "split" then strSplit s vals
+  else if name == "to_upper" && vals.isEmpty then strToUpper s
+  else if name == "to_lower" && vals.isEmpty then strToLower s
+  else if name == "parse_int" && vals.isEmpty then strParseInt s sp
+  else if name == "parse_bool" && vals.isEmpty then strParseBool s sp
+  else if name == "parse_float" && vals.isEmpty then strParseFloat s sp
+  else throwCtl (.unsupported ("member " ++ name))
+
+/-- `sort` of the list at address `a` with elements `xs` (`valueList.go`). -/
+def listSort (a : Nat) (xs : List Val) : M Val :=
+  -- insertion sort, dispatched on the kind of the first element
+  match xs with
+  | [] => pure .null
+  | .int _ :: _ =>
+    match xs.mapM fun x => match x with | .int i => some i | _ => none with
+    | some is => do
+      writeCell a (.list ((insertionSort (fun (x t : I64) => t.slt x) is).map Val.int)); pure .null
+    | none => throwCtl (.unsupported "sort of a list of mixed kinds")
+  | .float _ :: _ =>
+    match xs.mapM fun x => match x with | .float f => some f | _ => none with
+    | some fs => do
+      writeCell a (.list ((insertionSort (fun (x t : Float) => x > t) fs).map Val.float)); pure .null
+    | none => throwCtl (.unsupported "sort of a list of mixed kinds")
+  | .str _ :: _ =>
+    match xs.mapM fun x => match x with | .str s => some s | _ => none with
+    | some ss => do
+      writeCell a (.list ((insertionSort (fun (x t : String) => decide (t < x)) ss).map Val.str)); pure .null
+    | none => throwCtl (.unsupported "sort of a list of mixed kinds")
+  | _ => throwCtl (.unsupported "sort of this element kind")
+
 def callMember (recv : Val) (name : String) (vals : List Val) (sp : Span) : M Val := do
   match recv, name, vals with
   | .int i, "to_string", [] => pure (.str (fmtInt i))
   | .int i, "to_range", [] => pure (.range 0 i false)
   | .bool b, "to_string", [] => pure (.str (if b then "true" else "false"))
   | .float f, "to_string", [] => do pure (.str (← displayM (.float f)))
+  | .float f, _, _ => floatMember f name vals
   | .str s, "len", [] => pure (.int (I64.ofInt s.length))
   | .str s, "to_string", [] => pure (.str s)
   | .str s, "contains", [.str t] =>
     pure (.bool ((s.splitOn t).length > 1 || t.isEmpty))
   | .str s, "starts_with", [.str t] => pure (.bool (t.toList.isPrefixOf s.toList))
   | .str s, "repeat", [.int n] =>
-    if n.toInt < 0 then throwCtl (.unsupported "negative repeat count")
+    let bytes := utf8Len s.toList
+    if n.toInt < 0 then throwCtl (.throw "negative repeat count" sp)
+    else if bytes > 0 && n.toInt > (9223372036854775807 : Int) / (bytes : Int) then
+      throwCtl (.throw "repeat output length overflow" sp)
+    else if s.isEmpty then pure (.str "")     -- `strings.Repeat("", n)`
     else if n.toNat * s.length > 100000 then throwCtl (.unsupported "huge repeat")
     else pure (.str (String.join (List.replicate n.toNat s)))
+  | .str s, _, _ => strMember s name vals sp
   | .opt o, "is_some", [] => pure (.bool o.isSome)
   | .opt o, "is_none", [] => pure (.bool o.isNone)
   | .opt o, "unwrap", [] =>
@@ -509,6 +848,7 @@ def callMember (recv : Val) (name : String) (vals : List Val) (sp : Span) : M Va
   | .range a b incl, "rev", [] => pure (.range b a incl)
   | .range a b _, "diff", [] =>
     pure (.int (if b.slt a then a - b else b - a))
+  | .range .., "to_string", [] => do pure (.str (← displayM recv))
   | .ref a, _, _ => do
     match ← readCell a, name, vals with
     | .list xs, "len", [] => pure (.int (I64.ofInt xs.length))
@@ -546,15 +886,25 @@ def callMember (recv : Val) (name : String) (vals : List Val) (sp : Span) : M Va
         throwCtl (.fatal "IndexOutOfBounds" s!"Index out of bounds: the index is {k}, the but length is {xs.length}" sp)
       else do writeCell a (.list (xs.eraseIdx k.toNat)); pure .null
     | .list _, "to_string", [] => do pure (.str (← displayM recv))
+    | .list xs, "sort", [] => listSort a xs
     | .obj _, "to_string", [] => do pure (.str (← displayM recv))
     | .obj fs, "keys", [] => do alloc (.list ((sortFields fs).map fun (k, _) => Val.str k))
     | .anyobj fs, "keys", [] => do alloc (.list ((sortFields fs).map fun (k, _) => Val.str k))
     | .anyobj fs, "set", [.str k, v] => do
+      -- an any-object that would contain itself is refused (catchable)
+      match reachesVal (← get).heap a 100000 v with
+      | some true => throwCtl (.throw "an any-object cannot contain itself" sp)
+      | none => throwCtl (.unsupported "containment test of any-object set")
+      | some false => pure ()
       if (fs.lookup k).isSome then
         writeCell a (.anyobj (fs.map fun (k', old) => if k' == k then (k', v) else (k', old)))
       else writeCell a (.anyobj (fs ++ [(k, v)]))
       pure .null
     | .anyobj fs, "get", [.str k] => pure (.opt (fs.lookup k))
+    | .anyobj fs, "get_type", [.str k] =>
+      match fs.lookup k with
+      | some v => do pure (.str (← typeKindNameM v))
+      | none => throwCtl (.fatal "IndexOutOfBounds" s!"Value of type 'any-object' has no field named '{k}'" sp)
     | .anyobj _, "to_string", [] => do pure (.str (← displayM recv))
     | _, _, _ => throwCtl (.unsupported s!"member {name}")
   | _, _, _ => throwCtl (.unsupported s!"member {name}")
@@ -646,7 +996,9 @@ def evalExpr (cfg : Cfg) : Nat → Expr → M Val
     | .member sp _ base name op => do
       let b ← evalExpr cfg fuel base
       memberVal b name op sp
-    | .cast _ _ _ => throwCtl (.unsupported "cast (see the value model, C12)")
+    | .cast sp ty e => do
+      let v ← evalExpr cfg fuel e
+      castVal castFuel v ty true "" sp
     | .blockE b => inScope (evalBlock cfg fuel b)
     | .ifE _ _ c t e => do
       match ← evalExpr cfg fuel c with
@@ -804,9 +1156,10 @@ def evalStmt (cfg : Cfg) : Nat → Stmt → M Unit
       let vals ← evalList cfg fuel (args.map (·.2))
       let ds ← vals.mapM displayM
       modify fun s => { s with trig := s.trig ++ s!"{cb}<-{tr}({",".intercalate ds});" }
-    | .letS _ name _ needsCast _ e => do
+    | .letS sp name _ needsCast optTy e => do
       let v ← evalExpr cfg fuel e
-      if needsCast then throwCtl (.unsupported "let with runtime type validation (see C12)")
+      -- an initialiser whose static type mentions `any` is validated against the annotation (no conversions)
+      if needsCast then do declare name (← castVal castFuel v optTy false "" sp)
       else declare name v
     | .ret _ e => do
       match e with
@@ -886,9 +1239,9 @@ def runProgram (cfg : Cfg) (fuel : Nat) (entry : String := "main") : Outcome :=
         modify fun s => { s with globals := s.globals ++ [((m.name, name), v)] }
       for g in m.globals do
         match g with
-        | .letS _ name _ needsCast _ e => do
-          if needsCast then throwCtl (.unsupported "global with runtime type validation")
+        | .letS sp name _ needsCast optTy e => do
           let v ← evalExpr cfg fuel e
+          let v ← if needsCast then castVal castFuel v optTy false "" sp else pure v
           modify fun s => { s with globals := s.globals ++ [((m.name, name), v)] }
         | _ => throwCtl (.unsupported "global statement")
     modify fun s => { s with module := "main", scopes := [[]] }
